@@ -270,7 +270,7 @@ func c08(c *hx.Ctx) {
 		chunks, cname := chunksFor(c, len(data))
 		got, end, _, closed := readAll(session, data, chunks, uint32(maxp), 1+c.Rng.Intn(3), maxp+8)
 		desc := map[string]any{"kind": name + "/" + kind, "max": maxp, "chunking": cname, "chunks": chunks, "data": hx.Hex(data), "writers": writers, "expected": hexes(expect), "got": hexes(got), "end": end}
-		c.Case(hx.App("Pk", hx.Bool(session), hx.Z(int64(maxp)), hx.NatList(chunks), hx.Bytes(data), hx.BytesList(got), hx.Nat(end)), desc)
+		c.Case(hx.App("Pk", hx.Bool(session), hx.Z(int64(maxp)), natList(chunks), hx.Bytes(data), hx.BytesList(got), hx.Nat(end)), desc)
 		c.Class(name + "/" + kind + "/" + cname)
 		if writers > 1 {
 			c.Class(name + "/concurrent-writers")
